@@ -681,7 +681,11 @@ func cmdCheck(prop, tier string) int {
 		for _, h := range harnessTrouble {
 			fmt.Fprintln(os.Stderr, "HARNESS-TROUBLE:", h)
 		}
-		for _, d := range detDiv {
+		for i, d := range detDiv {
+			if i >= 8 {
+				fmt.Fprintf(os.Stderr, "... and %d more divergences\n", len(detDiv)-i)
+				break
+			}
 			fmt.Fprintln(os.Stderr, "DETERMINISM-DIVERGENCE:", d)
 		}
 		if reported == 0 {
